@@ -152,6 +152,8 @@ def licensed_tree(rng, lang, token_fn, max_leaves=9, want_label=None, tokens=Non
         if budget[0] <= 1 or depth > 6:
             if can_leaf:
                 return leaf(cat)
+        if depth > 14:
+            raise LookupError('too deep')
         choices = []
         if rules:
             choices += ['b'] * 6
@@ -173,7 +175,8 @@ def licensed_tree(rng, lang, token_fn, max_leaves=9, want_label=None, tokens=Non
         right = expand(y, depth + 1, False)
         return Tree.make_binary(cat, left, right, r.op_string, r.op_symbol, r.head_is_left)
 
-    for _ in range(60):
+    last = None
+    for _ in range(300):
         budget[0] = max_leaves
         toks.clear()
         try:
@@ -186,9 +189,10 @@ def licensed_tree(rng, lang, token_fn, max_leaves=9, want_label=None, tokens=Non
             if tokens is not None and len(toks) != len(tokens):
                 continue
             return t
-        except (LookupError, RecursionError, IndexError):
+        except (LookupError, RecursionError, IndexError) as e:
+            last = e
             continue
-    raise LookupError('could not generate a licensed tree')
+    raise LookupError(f'could not generate a licensed tree: last error {last!r}')
 
 
 def arbitrary_tree(rng, lang, token_fn, max_leaves=7, labels=None, tokens=None):
